@@ -862,3 +862,41 @@ def OdlModel.C18.documentedModes : List (String × String) :=
 theorem C18.pad_table_documented :
     (∀ p ∈ OdlModel.C18.documentedModes, OdlModel.Gen.WaveletPad.padTable.lookup p.1 = some p.2) ∧
     OdlModel.Gen.WaveletPad.padTable.length = OdlModel.C18.documentedModes.length := by decide
+
+/-- **The whole crop** (`cropShape`, the executed model of the crop loop of
+`WaveletTransformInverse._call`): for reconstruction/intended shapes of any dimension, if every
+axis has an admissible reconstruction length, the crop succeeds and yields exactly the intended
+shape — also when no axis needs cropping. -/
+theorem C18.crop_shape_ok (recon intended : List Nat) (hlen : recon.length = intended.length)
+    (hok : ∀ p ∈ recon.zip intended, reconLenOk p.2 p.1 = true) :
+    cropShape recon intended = Except.ok intended := by
+  unfold cropShape
+  split_ifs with h
+  · rw [h]
+  · exact mapM_crop recon intended hlen hok
+
+example : cropShape [8, 5, 6] [7, 5, 5] = Except.ok [7, 5, 5] :=
+  C18.crop_shape_ok _ _ rfl (by decide)
+
+/-- **`pywt_pad_mode` characterised** (`padMode` over the regenerated table, the executed
+definition): for EVERY string and constant flag the result is: `ValueError` for `'constant'`
+(after lower-casing) with a non-zero constant, otherwise the table entry of the lower-cased
+name, `ValueError` if there is none. -/
+theorem C18.pad_mode_spec (mode : String) (zero : Bool) :
+    padMode padTable mode zero =
+      if mode.toLower = "constant" ∧ zero = false then Except.error "err:value"
+      else ((padTable.lookup mode.toLower).map Except.ok).getD (Except.error "err:value") := by
+  dsimp only [padMode]
+  generalize List.lookup mode.toLower padTable = o
+  cases zero <;> by_cases h : mode.toLower = "constant" <;> cases o <;> simp [h]
+
+/-- Hence every spelling whose lower-case form is a documented ODL mode maps to the documented
+PyWavelets mode (with `pad_const = 0`). -/
+theorem C18.pad_mode_documented (mode : String) (p : String × String)
+    (hp : p ∈ OdlModel.C18.documentedModes) (hm : mode.toLower = p.1) :
+    padMode padTable mode true = Except.ok p.2 := by
+  rw [C18.pad_mode_spec, hm, (C18.pad_table_documented.1 p hp)]
+  simp
+
+example : padMode padTable "order0" true = Except.ok "constant" :=
+  C18.pad_mode_documented "order0" ("order0", "constant") (by decide) (by decide +kernel)
